@@ -7,6 +7,7 @@ import (
 	"path/filepath"
 	"sort"
 	"strings"
+	"time"
 
 	"github.com/sboehler/knut/lib/journal"
 	"github.com/sboehler/knut/lib/model"
@@ -558,11 +559,14 @@ func runC12(c *Ctx) {
 		c.c12RunCase(bt, stream, idx, k, c.Rng(stream, idx))
 		return
 	}
-	if c.Replay && c.ReplayInput != nil && c.OnlyStr == "days" {
+	if c.Replay && c.ReplayInput != nil && (c.OnlyStr == "days" || c.OnlyStr == "requote") {
 		k := c12CaseFromInput(c.ReplayInput)
-		idx := c.OnlyIndex
+		stream, idx := c.OnlyStr, c.OnlyIndex
 		c.Replay = false
-		c.c12DaysCase(bt, idx, k)
+		c.c12DaysCase(bt, stream, idx, k)
+		if stream == "requote" && idx%c12BalanceEvery == 0 {
+			c.c12BalanceCase(stream, idx, k)
+		}
 		return
 	}
 	var suspects []c12Case
@@ -623,13 +627,29 @@ func runC12(c *Ctx) {
 			k.Decls[j], k.Decls[m] = k.Decls[m], k.Decls[j]
 		}
 		k.Shape += "/days"
-		c.c12DaysCase(bt, i, k)
+		c.c12DaysCase(bt, "days", i, k)
+	}
+	bt.Flush()
+	// ---- positions of a quote within a day: zero / negative / tiny quotes first, in the middle, last, re-quoted the same
+	// day (same or inverse direction) or on another date; every c12BalanceEvery-th journal also through `knut balance -v`
+	nq := c.N(2500, 40000)
+	for i := 0; i < nq; i++ {
+		if !c.Want("requote", i) {
+			continue
+		}
+		k := c12GenRequote(c.Rng("requote", i))
+		c.c12DaysCase(bt, "requote", i, k)
+		if i%c12BalanceEvery == 0 {
+			c.c12BalanceCase("requote", i, k)
+		}
 	}
 }
 
+const c12BalanceEvery = 10
+
 // c12DaysCase: prices go through journal.Builder (grouping by date, file order within a day) and the
 // ComputePrices processor; every day's Normalized table is compared and monitored.
-func (c *Ctx) c12DaysCase(bt *Batch, i int, k c12Case) {
+func (c *Ctx) c12DaysCase(bt *Batch, stream string, i int, k c12Case) {
 	c.Evals++
 	in := k.input()
 	type dayOut struct {
@@ -717,11 +737,30 @@ func (c *Ctx) c12DaysCase(bt *Batch, i int, k c12Case) {
 	}
 	first := impl()
 	firstDays := days
-	bt.Add(func(model string) { c.Compare("days", i, "c12days", in, first, model) },
+	bt.Add(func(model string) { c.Compare(stream, i, "c12days", in, first, model) },
 		"c12days", Hex(k.V), c12DeclsField(k.Decls, true), c12QueriesField(k.Queries))
 	for j := 1; j < c.N(2, 4); j++ {
 		again := impl()
-		c.Monitor("days", i, "C12_order_irrelevant(repeated runs give the same prices)", in, again == first, "run 0: "+first+" run "+itoa(j)+": "+again)
+		c.Monitor(stream, i, "C12_order_irrelevant(repeated runs give the same prices)", in, again == first, "run 0: "+first+" run "+itoa(j)+": "+again)
+	}
+	// "a zero price is rejected", stated on the real outcome of the journal: a journal holding a zero price directive
+	// must fail wherever that directive stands (first, last, re-quoted later the same day or on a later day, either
+	// direction), and a journal without one must be accepted. Evaluated by the driver (Spec.insertOK).
+	if strings.HasPrefix(first, "ok") || first == "error" {
+		acc := "0"
+		if first != "error" {
+			acc = "1"
+		}
+		var priced []c12Decl
+		for _, d := range k.Decls {
+			if !d.Empty {
+				priced = append(priced, d)
+			}
+		}
+		bt.Add(func(mon string) {
+			c.Monitor(stream, i, "insertOK(journal: a zero price directive is rejected wherever it stands, others accepted)", in, mon == "ok",
+				"accepted="+acc+" zero price directives: "+c12ZeroDirectives(k)+" => "+mon)
+		}, "c12insmon", c12DeclsField(priced, false), acc)
 	}
 	if !strings.HasPrefix(first, "ok") {
 		zero := false
@@ -730,7 +769,7 @@ func (c *Ctx) c12DaysCase(bt *Batch, i int, k c12Case) {
 				zero = true
 			}
 		}
-		c.Monitor("days", i, "error only for a zero price", in, zero && first == "error", first)
+		c.Monitor(stream, i, "error only for a zero price", in, zero && first == "error", first)
 		c.Class("c12days/error")
 		return
 	}
@@ -755,7 +794,7 @@ func (c *Ctx) c12DaysCase(bt *Batch, i int, k c12Case) {
 		d := d
 		in2 := map[string]any{"case": in, "day": d.day, "date": dayTime(d.day).Format("2006-01-02")}
 		if len(prefix) == 0 || d.isNil {
-			c.Monitor("days", i, "no table exactly before the first price", in2, d.isNil == (len(prefix) == 0), fmt.Sprintf("nil=%v declarations so far=%d", d.isNil, len(prefix)))
+			c.Monitor(stream, i, "no table exactly before the first price", in2, d.isNil == (len(prefix) == 0), fmt.Sprintf("nil=%v declarations so far=%d", d.isNil, len(prefix)))
 			nilDays++
 			continue
 		}
@@ -763,11 +802,252 @@ func (c *Ctx) c12DaysCase(bt *Batch, i int, k c12Case) {
 			carried++
 		}
 		bt.Add(func(mon string) {
-			c.Monitor("days", i, "priceOK(day)", in2, mon == "ok", "table "+c12ShowTable(d.table)+" => "+mon)
+			c.Monitor(stream, i, "priceOK(day)", in2, mon == "ok", "table "+c12ShowTable(d.table)+" => "+mon)
 		}, "c12mon", Hex(k.V), c12DeclsField(prefix, false), c12TableField(d.table))
 	}
 	c.Class(fmt.Sprintf("c12days/%s/days%s/nil%v/carried%v/file%v", k.Shape, bucket(len(firstDays)), nilDays > 0, carried > 0, viaFile))
 	if i < 2 {
-		c.Sample(map[string]any{"stream": "days", "input": in, "impl": first})
+		c.Sample(map[string]any{"stream": stream, "input": in, "impl": first})
 	}
+}
+
+// ---------------------------------------------------------------- stream requote: positions of a quote within a day
+
+// c12ZeroDirectives lists the zero price directives of a case with their position among the price directives of their
+// date (file order), for reading a finding.
+func c12ZeroDirectives(k c12Case) string {
+	perDay := map[int]int{}
+	for _, d := range k.Decls {
+		if !d.Empty {
+			perDay[d.Day]++
+		}
+	}
+	seen := map[int]int{}
+	var out []string
+	for _, d := range k.Decls {
+		if d.Empty {
+			continue
+		}
+		seen[d.Day]++
+		if p, err := decimal.NewFromString(d.Price); err == nil && p.IsZero() {
+			out = append(out, fmt.Sprintf("%s price %s %s %s (quote %d of %d that day)", dayTime(d.Day).Format("2006-01-02"), d.Com, d.Price, d.Tgt, seen[d.Day], perDay[d.Day]))
+		}
+	}
+	if len(out) == 0 {
+		return "none"
+	}
+	return strings.Join(out, "; ")
+}
+
+func c12HasZero(k c12Case) bool {
+	for _, d := range k.Decls {
+		if p, err := decimal.NewFromString(d.Price); !d.Empty && err == nil && p.IsZero() {
+			return true
+		}
+	}
+	return false
+}
+
+// where the odd (zero / negative / tiny) quote stands relative to the other quotes of its pair and of its day
+var c12OddPositions = []string{"alone", "first", "middle", "last", "before-same", "before-inverse", "after-same", "after-inverse",
+	"between-same", "between-inverse", "twice", "later-day-requote", "earlier-day-quote", "both-days"}
+
+func c12OddPrice(r *RNG, kind string) string {
+	switch kind {
+	case "zero":
+		return Pick(r, []string{"0", "0", "0.0", "-0", "0.00000000", "000", "-0.00", "0.000000000000"})
+	case "negative":
+		return "-" + Pick(r, []string{"1", "0.5", "15.93", "0.00000001", "100000000", "3"})
+	default: // tiny, not zero: accepted; the stored reciprocal is huge, products truncate to 0
+		return Pick(r, []string{"0.00000001", "0.000000001", "0.0000000001", "0.00000000000000000001", "0.0000000149"})
+	}
+}
+
+// c12GenRequote: 2-4 commodities, 1-3 pairs quoted 0-5 times a day (either direction) over 1-4 dates, and one or two
+// odd quotes placed at a chosen position of a day: alone, first, middle, last, before/after/between quotes of the same
+// pair in the same or the inverse direction, twice, or re-quoted on another date. File order: by date, by date
+// descending, or a random merge that keeps the order within every date.
+func c12GenRequote(r *RNG) c12Case {
+	n := r.Range(2, 4)
+	names := c12Names(r, n)
+	k := c12Case{Names: names}
+	nd := r.Range(1, 4)
+	base := 737000 + r.Intn(1000)
+	type pair struct{ a, b int }
+	var pairs []pair
+	for j := r.Range(1, 3); j > 0; j-- {
+		a, b := r.Intn(n), r.Intn(n-1)
+		if b >= a {
+			b++
+		}
+		pairs = append(pairs, pair{a, b})
+	}
+	// dates base+2*idx, idx 0 and nd+1 without background quotes (room for an earlier / later date)
+	days := make([][]c12Decl, nd+2)
+	quote := func(idx int, p pair, inverse bool, price string) c12Decl {
+		a, b := p.a, p.b
+		if inverse {
+			a, b = b, a
+		}
+		return c12Decl{Com: names[a], Price: price, Tgt: names[b], Day: base + 2*idx}
+	}
+	for idx := 1; idx <= nd; idx++ {
+		for j := r.Intn(6); j > 0; j-- {
+			days[idx] = append(days[idx], quote(idx, Pick(r, pairs), r.Bool(), c12Price(r, false)))
+		}
+	}
+	insertAt := func(l []c12Decl, at int, x c12Decl) []c12Decl {
+		l = append(l, c12Decl{})
+		copy(l[at+1:], l[at:])
+		l[at] = x
+		return l
+	}
+	k.Shape = "requote/none"
+	odds := 0
+	if r.Chance(5, 6) {
+		odds = 1
+		if r.Chance(1, 5) {
+			odds = 2
+		}
+	}
+	for o := 0; o < odds; o++ {
+		kind := Pick(r, []string{"zero", "zero", "zero", "negative", "tiny"})
+		pos := Pick(r, c12OddPositions)
+		idx := r.Range(1, nd)
+		p := Pick(r, pairs)
+		inv := r.Bool()
+		odd := func() c12Decl { return quote(idx, p, inv, c12OddPrice(r, kind)) }
+		same := func(at int) c12Decl { return quote(at, p, inv, c12Price(r, false)) }
+		inverse := func(at int) c12Decl { return quote(at, p, !inv, c12Price(r, false)) }
+		l := days[idx]
+		// three ascending insertion points
+		at := r.Intn(len(l) + 1)
+		at2 := at + 1 + r.Intn(len(l)-at+1)
+		at3 := at2 + 1 + r.Intn(len(l)+2-at2)
+		switch pos {
+		case "alone":
+			l = []c12Decl{odd()}
+		case "first":
+			l = insertAt(l, 0, odd())
+		case "middle":
+			l = insertAt(l, at, odd())
+		case "last":
+			l = append(l, odd())
+		case "before-same":
+			l = insertAt(insertAt(l, at, odd()), at2, same(idx))
+		case "before-inverse":
+			l = insertAt(insertAt(l, at, odd()), at2, inverse(idx))
+		case "after-same":
+			l = insertAt(insertAt(l, at, same(idx)), at2, odd())
+		case "after-inverse":
+			l = insertAt(insertAt(l, at, inverse(idx)), at2, odd())
+		case "between-same":
+			l = insertAt(insertAt(insertAt(l, at, same(idx)), at2, odd()), at3, same(idx))
+		case "between-inverse":
+			l = insertAt(insertAt(insertAt(l, at, inverse(idx)), at2, odd()), at3, inverse(idx))
+		case "twice":
+			l = insertAt(insertAt(l, at, odd()), at2, odd())
+		case "later-day-requote":
+			l = insertAt(l, at, odd())
+			days[idx+1] = append(days[idx+1], same(idx+1))
+		case "earlier-day-quote":
+			l = insertAt(l, at, odd())
+			days[idx-1] = append(days[idx-1], same(idx-1))
+		default: // both-days
+			l = insertAt(l, at, odd())
+			days[idx-1] = append(days[idx-1], inverse(idx-1))
+			days[idx+1] = append(days[idx+1], same(idx+1))
+		}
+		days[idx] = l
+		if o == 0 {
+			k.Shape = "requote/" + kind + "/" + pos
+		} else {
+			k.Shape += "+" + kind
+		}
+	}
+	// file order
+	switch r.Intn(3) {
+	case 0:
+		for _, l := range days {
+			k.Decls = append(k.Decls, l...)
+		}
+	case 1:
+		for j := len(days) - 1; j >= 0; j-- {
+			k.Decls = append(k.Decls, days[j]...)
+		}
+	default: // random merge, order within a date kept
+		rest := 0
+		for _, l := range days {
+			rest += len(l)
+		}
+		next := make([]int, len(days))
+		for ; rest > 0; rest-- {
+			t := r.Intn(rest)
+			for j, l := range days {
+				if left := len(l) - next[j]; t < left {
+					k.Decls = append(k.Decls, l[next[j]])
+					next[j]++
+					break
+				} else {
+					t -= left
+				}
+			}
+		}
+	}
+	// dates without a price, anywhere in the file
+	for j := r.Intn(3); j > 0; j-- {
+		k.Decls = insertAt(k.Decls, r.Intn(len(k.Decls)+1), c12Decl{Day: base - 1 + r.Intn(2*nd+5), Empty: true})
+	}
+	k.V = Pick(r, names)
+	if r.Chance(1, 12) {
+		k.V = "NOWHERE"
+	}
+	for _, c := range names {
+		k.Queries = append(k.Queries, c12Query{c, "1"})
+	}
+	k.Queries = append(k.Queries, c12Query{"UNKNOWN", "1"})
+	return k
+}
+
+// c12BalanceCase: the same journal given to the knut binary (`knut balance -v V`): it fails with the zero price error
+// exactly when the journal holds a zero price directive.
+func (c *Ctx) c12BalanceCase(stream string, i int, k c12Case) {
+	if c.KnutBin == "" || c.WorkDir == "" {
+		return
+	}
+	var tb strings.Builder
+	for n, d := range k.Decls {
+		if d.Empty {
+			fmt.Fprintf(&tb, "%s open Assets:Marker%d\n", dayTime(d.Day).Format("2006-01-02"), n)
+		} else {
+			fmt.Fprintf(&tb, "%s price %s %s %s\n", dayTime(d.Day).Format("2006-01-02"), d.Com, d.Price, d.Tgt)
+		}
+	}
+	os.MkdirAll(c.WorkDir, 0o755)
+	path := filepath.Join(c.WorkDir, "c12balance.knut")
+	if err := os.WriteFile(path, []byte(tb.String()), 0o644); err != nil {
+		panic(err)
+	}
+	code, _, stderr := runKnut(c.KnutBin, 30*time.Second, nil, "balance", "-v", k.V, "--color=false", path)
+	if code == -2 {
+		c.Tag("balance-timeout-skipped")
+		return
+	}
+	c.Evals++
+	c.Tag("balance-v-binary")
+	in := k.input()
+	zero := c12HasZero(k)
+	ok := (code == 0) == !zero
+	if zero && code != 0 {
+		ok = strings.Contains(stderr, "invalid price")
+	}
+	c.Monitor(stream, i, "knut balance -v: a journal with a zero price directive is rejected (invalid price), others accepted", in, ok,
+		fmt.Sprintf("exit %d stderr %q zero price directives: %s", code, c12FirstLine(stderr), c12ZeroDirectives(k)))
+}
+
+func c12FirstLine(s string) string {
+	if j := strings.IndexByte(s, '\n'); j >= 0 {
+		return s[:j]
+	}
+	return s
 }
